@@ -170,10 +170,10 @@ class PolarsContainerValidate(Contract):
                 p = cur()
                 p.ghost.setdefault("check_calls", []).append((name, args))
                 opts = [("passes", None), ("fails", None)] + ([("component_error", None)] if name == "run_schema_component_checks" else []) + (
-                    [("two_failures", None)] if name == "check_column_presence" else [])
+                    [("two_failures", None)] if name in ("check_column_presence", "check_column_values_are_unique") else [])
                 k = p.choose(opts, name)
                 if k == 0:
-                    return ListObj() if name != "check_column_values_are_unique" else T.Ref(CoreCheckResult, strict=True, passed=T.Const(True), schema_error=T.Const(None)).fresh(f"{name}_ok")
+                    return ListObj() if name != "check_column_values_are_unique" else ListObj([T.Ref(CoreCheckResult, strict=True, passed=T.Const(True), schema_error=T.Const(None)).fresh(f"{name}_ok")])
 
                 def failure(tag, wraps):
                     r = T.Ref(CoreCheckResult, strict=True, passed=T.Const(False), check=T.Any, check_index=T.Any, check_output=T.Any,
@@ -182,10 +182,10 @@ class PolarsContainerValidate(Contract):
                     p.ghost.setdefault("failing", []).append(r)
                     return r
 
-                if opts[k][0] == "two_failures":  # a core check may report several failures (one per absent column): none may be lost
+                if opts[k][0] == "two_failures":  # a core check may report several failures (one per absent column / violated constraint): none may be lost
                     return ListObj([failure("#0", False), failure("#1", False)])
                 r = failure("", opts[k][0] == "component_error")
-                return r if name == "check_column_values_are_unique" else ListObj([r])
+                return ListObj([r])
 
             return m
 
